@@ -45,6 +45,7 @@ CONSTANTS
                         \*        hash to its id before a cache hit on it
     MaxAlter,           \* 1 or 2: field alterations per tampered certificate
     TamperFields,       \* subset of AllTamperFields used for tampering
+    MsgModes,           \* subset of {"k", "d", "r"}: how a protocol-message change treats the signed message
     ForgeEpochs, ForgeKeys, ForgePars, ForgeNextAvk, ForgeNextPars,   \* domains of forged certificates
     Forge2Pars,         \* parameter ids used on the second forging level
     ForgeLevels         \* 1: forged certificates link to honest ones; 2: also to forged ones
@@ -89,7 +90,6 @@ AllTamperFields == {"prev", "epoch", "avk", "params", "msgEpoch", "nextAvk", "ne
 (*   "k"  the signed message is kept (it no longer matches, the signature still covers it)    *)
 (*   "d"  the signed message is recomputed (nobody signed the new one)                        *)
 (*   "r"  recomputed and re-signed by the same key set (collusion / the provider's own set)   *)
-MsgModes == {"k", "d", "r"}
 MsgAlt(c, s) == [c EXCEPT !.signedMsgOk = (s # "k"), !.sigBy = IF s = "d" THEN "none" ELSE @]
 
 Alter1(c) ==
